@@ -339,6 +339,9 @@ def gen_cases(run):
         dict(split_method='top_vector_agop_on_subset', task='reg1', n=80, kernel='l1', d=10, cat=[3, 4], iters=2, max_leaf_size=40),
         dict(split_method='pca', task='bin', n=70, kernel='l2', d=8, cat=[2, 3], iters=1, max_leaf_size=40),
         dict(split_method='random', task='reg2', n=40, kernel='lpq', d=9, cat=[4, 3], iters=2, max_leaf_size=60),
+        # more than 256 features: the top AGOP direction is then computed by an iterative eigen-solver with a random start vector
+        dict(split_method='top_vector_agop_on_subset', task='reg1', n=70, d=300, n_trees=2),
+        dict(split_method='top_pc_agop_on_subset', task='bin', n=80, d=260),
     ]
     reps = 2 if quick else 30
     for rep in range(reps):
@@ -370,6 +373,7 @@ def gen_cases(run):
         dict(split_method='top_vector_agop_on_subset', task='bin', n=70, tuning=True),              # default metric (brier), set by fit
         dict(split_method='pca', task='bin', n=100, tuning=True, tuning_metric='accuracy', kernel='l2_high_dim'),
         dict(split_method='top_vector_agop_on_subset', task='reg1', n=18, tuning=True),             # compared fit: single leaf
+        dict(split_method='top_vector_agop_on_subset', task='reg1', n=70, tuning=False, d=300),     # iterative eigen-solver (> 256 features)
         dict(split_method='pca', task='bin', n=50, tuning=True, tuning_metric='accuracy', d=3),
         dict(split_method='top_vector_agop_on_subset', task='bin', n=60, tuning=True, tuning_metric='accuracy', iters=0, d=5),
         dict(split_method='pca', task='multi', n=60, tuning=True, tuning_metric='accuracy', kernel='l1'),
